@@ -611,14 +611,30 @@ func c05Serial(c *Ctx, k *core) {
 		// the serial may be handed in by the monitor (`next := old.s + 1; install(..., next, ...)`): then the same is asked
 		// of the argument at the (single) call site - loaded there, no store between the load and the call - and, inside
 		// the storing function, no other store before this one
-		if sp, isParam := stripConv(ser).(*ssa.Parameter); isParam {
+		// ... or the monitor hands in the serial it loaded and the storing function adds the one itself
+		plusOneInside := false
+		serParam := stripConv(ser)
+		if add, isAdd := serParam.(*ssa.BinOp); isAdd && add.Op == token.ADD {
+			if n, isC := constInt(add.Y); isC && n == 1 {
+				if p, isP := stripConv(add.X).(*ssa.Parameter); isP {
+					serParam, plusOneInside = p, true
+				}
+			} else if n, isC := constInt(add.X); isC && n == 1 {
+				if p, isP := stripConv(add.Y).(*ssa.Parameter); isP {
+					serParam, plusOneInside = p, true
+				}
+			}
+		}
+		if sp, isParam := serParam.(*ssa.Parameter); isParam {
 			acts := k.actualsOf(sp)
 			okP := len(acts) > 0
 			why := "the serial parameter has no visible call site"
 			for _, a := range acts {
 				add, ok := stripConv(a.Arg).(*ssa.BinOp)
 				var src *ssa.Call
-				if ok && add.Op == token.ADD {
+				if plusOneInside {
+					src = k.serialSource(stripConv(a.Arg))
+				} else if ok && add.Op == token.ADD {
 					if n, isC := constInt(add.Y); isC && n == 1 {
 						src = k.serialSource(add.X)
 					} else if n, isC := constInt(add.X); isC && n == 1 {
